@@ -321,6 +321,10 @@ def _process_properties(  # noqa: PLR0912, PLR0911
     required_properties = []
     optional_properties = []
     for prop in properties.values():
+        if prop.name in required_set and not prop.required:
+            # `required` of any allOf member also applies to properties inherited from a referenced member;
+            # the inherited object is shared with the parent model, so it is copied, never mutated
+            prop = evolve(prop, required=True)  # noqa: PLW2901
         if prop.required:
             required_properties.append(prop)
         else:
